@@ -647,21 +647,35 @@ def pn1_no_panic_source_on_the_reducer_thread(ctx, rep):
     PANIC_PREFIX = ("core::panicking::", "std::rt::begin_panic", "std::rt::panic", "std::panicking::begin_panic", "core::option::expect_failed", "core::result::unwrap_failed", "core::slice::index::")
     n = 0
     bad = []
+    discharged = [0]
+    from mirq.ranges import ranges_of
     for pth, b in sorted(bodies.items()):
         if "fmt::" in (b.j.get("impl_trait") or ""):
             continue
         n += 1
         bp = ctx.prog.bp(b)
+        rg = None
         for bi in ctx.prog.cfg(b).nodes():
             t = b.blocks[bi]["term"]
             if t["k"] == "assert":
                 msg = t.get("msg", "")
                 if msg.startswith("Overflow(Add") or msg.startswith("MisalignedPointerDereference") or msg.startswith("NullPointerDereference"):
                     continue
+                # the code may exclude the failure itself: a clamped index, a divisor tested
+                # against zero, `.max(1)`, `% LEN`: interval analysis of the body (mirq/ranges.py)
+                rg = rg or ranges_of(ctx.prog, b)
+                if rg.assert_status(bi) in ("holds", "dead"):
+                    discharged[0] += 1
+                    continue
                 bad.append((b, bi, msg.split("(")[0].split(" ")[0]))
         for s_ in ctx.prog.sites(b):
             if b.blocks[s_.bb].get("cleanup"):
                 continue
+            if s_.ck.startswith(PANIC_PREFIX):
+                rg = rg or ranges_of(ctx.prog, b)
+                if not rg.reachable(s_.bb):
+                    discharged[0] += 1
+                    continue
             if s_.ck.startswith(PANIC_PREFIX):
                 bad.append((b, s_.bb, s_.ck.split("::")[-1]))
             elif s_.ck in ("std::option::Option::unwrap", "std::option::Option::expect", "std::result::Result::expect", "std::result::Result::unwrap") and s_.term["args"]:
@@ -672,5 +686,5 @@ def pn1_no_panic_source_on_the_reducer_thread(ctx, rep):
         rep.note_fn(b.path)
         rep.bad(R, "no-panic-source:%s:%s" % (short(b.path), what.split(" of ")[0]), ctx.where(b, bi), "%s in %s can panic on the reducer thread (or on a dispatching thread under the sender lock): %s" % (what, short(b.path), "every accepted action behind it is lost"))
     if not bad:
-        rep.ok(R, "no-panic-source", "", "%d library bodies that run on the reducer thread / in the metrics sink / in the channel wrappers contain no panic source of their own" % n)
+        rep.ok(R, "no-panic-source", "", "%d library bodies that run on the reducer thread / in the metrics sink / in the channel wrappers contain no panic source of their own (%d compiler checks discharged by interval analysis)" % (n, discharged[0]))
     rep.floor(R, "bodies scanned for panic sources", n, 15)
